@@ -8,12 +8,16 @@ import LW.Driver.Circuit
 
 open Lean LW.Driver
 
+/-- protocol handlers by request name; one entry per handler module (LW/Driver/*.lean) -/
+def handlers : List (String × (Json → R Json)) :=
+  [("ping", fun _ => pure (Json.str "pong")),
+   ("circ", handleCirc)]
+
 def dispatch (req : Json) : R Json := do
   let op ← asStr (← fld req "op")
-  match op with
-  | "ping" => return Json.str "pong"
-  | "circ" => handleCirc req
-  | s => .error s!"unknown op {s}"
+  match handlers.find? (·.1 == op) with
+  | some h => h.2 req
+  | none => .error s!"unknown op {op}"
 
 partial def loop (h : IO.FS.Stream) (out : IO.FS.Stream) : IO Unit := do
   let line ← h.getLine
